@@ -331,3 +331,19 @@ add("success-finiteness-guard-removed", F, ["C10"], "dfols/solver.py", "    if e
 add("success-finiteness-guard-tests-other-value", F, ["C10"], "dfols/solver.py", "    if exit_info.flag == EXIT_SUCCESS and not np.isfinite(objmin):", "    if exit_info.flag == EXIT_SUCCESS and not np.isfinite(nf):", "C10-6")
 add("s-success-finiteness-guard-nested", S, ["C10", "C07"], "dfols/solver.py", "    if exit_info.flag == EXIT_SUCCESS and not np.isfinite(objmin):\n        exit_info = ExitInformation(EXIT_EVAL_ERROR, \"Objective value at the returned point is not finite\")\n",
     "    if exit_info.flag == EXIT_SUCCESS:\n        if not np.isfinite(objmin):\n            exit_info = ExitInformation(EXIT_EVAL_ERROR, \"Objective value at the returned point is not finite\")\n")
+
+# ---- rules added for the second half of seeding round 2
+add("coordinate-limit-not-validated", F, ["C07"], "dfols/solver.py", "    if exit_info is None and not params(\"init.random_initial_directions\") and npt > (n + 1) * (n + 2) // 2:\n        exit_info = ExitInformation(EXIT_INPUT_ERROR, \"npt > (n+1)(n+2)/2 needs random initial directions (init.random_initial_directions)\")\n", "", "C07-13|missing-guard")
+add("hard-restart-npt-not-clamped", F, ["C07"], "dfols/solver.py", "            if not params(\"init.random_initial_directions\"):\n                npt = min(npt, (n + 1) * (n + 2) // 2)  # coordinate initial directions cannot provide more points\n", "", "C07-13")
+add("s-hard-restart-npt-clamp-unconditional-order", S, ["C07", "C02"], "dfols/solver.py", "            if not params(\"init.random_initial_directions\"):\n                npt = min(npt, (n + 1) * (n + 2) // 2)  # coordinate initial directions cannot provide more points\n",
+    "            if params(\"init.random_initial_directions\"):\n                pass\n            else:\n                npt = min((n + 1) * (n + 2) // 2, npt)\n")
+add("jacobian-view-modified-in-place", F, ["C16"], "dfols/model.py", "            norm_J_error = np.linalg.norm(self.model_jac - J_old, ord='fro')**2\n", "            norm_J_error = np.linalg.norm(self.model_jac - J_old, ord='fro')**2\n            dg /= right_scaling[:, np.newaxis]\n", "C16-5")
+add("s-jacobian-copy-then-in-place", S, ["C16", "C11"], "dfols/model.py", "        self.model_jac = dg[1:,:].T\n", "        self.model_jac = dg[1:,:].T.copy()\n        dg *= 1.0\n")
+add("eval-num-array-reallocated-float", F, ["C20"], "dfols/model.py", "        self.eval_num = np.append(self.eval_num, eval_num)  # add new evaluation number", "        self.eval_num = np.concatenate((self.eval_num, np.zeros((1,))))\n        self.eval_num[-1] = eval_num", "C20-7")
+add("s-eval-num-array-concatenate", S, ["C20"], "dfols/model.py", "        self.eval_num = np.append(self.eval_num, eval_num)  # add new evaluation number", "        self.eval_num = np.concatenate((self.eval_num, [eval_num]))")
+add("nan-replacement-fast-path", F, ["C20"], "dfols/util.py", "    elif isinstance(d, list):\n        return [replace_nan_with_none(i) for i in d]", "    elif isinstance(d, list):\n        if len(d) > 0 and not math.isnan(min(d)):\n            return d\n        return [replace_nan_with_none(i) for i in d]", "C20-2b")
+add("diagnostic-table-indexed-per-run", F, ["C20"], "dfols/diagnostic_info.py", "        return pd.DataFrame(data_to_save)", "        return pd.DataFrame(data_to_save, index=self.data[\"iter_this_run\"])", "C20-5b")
+add("controller-state-in-class-body", F, ["C19"], "dfols/controller.py", "class Controller(object):\n", "class Controller(object):\n    last_iters_step_taken = []\n", "class-level-mutable")
+add("dykstra-rescales-tolerance", F, ["C15", "C09"], "dfols/util.py", "    x = x0.copy()\n    p = len(P)\n", "    x = x0.copy()\n    tol = tol * max(1.0, np.dot(x0, x0))\n    p = len(P)\n", "limit-reassigned")
+add("geometry-step-mirrored", F, ["C13"], "dfols/trust_region.py", "    smax = trsbox_linear(-g, lower - xbase, upper - xbase, Delta, use_fortran=use_fortran)  # maximise g' * s", "    smax = -smin", "C13-6")
+add("geometry-step-clamp-mixes-frames", F, ["C13"], "dfols/controller.py", "np.minimum(self.model.sl, 0.0), np.maximum(self.model.su, 0.0), adelt)", "np.minimum(self.model.sl, 0.0), np.maximum(self.model.su, self.model.xbase), adelt)", "C13-3.frame-agreement-clamp")
